@@ -192,3 +192,29 @@ func init() {
 		}
 	}
 }
+
+func init() {
+	debugHooks["parse"] = func(p *Prog, what string) {
+		fn := p.Func("parser.(*Parser)." + strings.TrimPrefix(what, "parse:"))
+		if fn == nil {
+			fmt.Println("no such parser method")
+			return
+		}
+		m, mc := ExploreParseFn(p, fn)
+		fmt.Println("states:", mc.States, "undecided:", m.Undecided)
+		ws, ok := m.G.Words(300)
+		fmt.Println("acyclic:", ok, "words:", len(ws))
+		if ok {
+			seen := map[string]bool{}
+			for _, w := range ws {
+				s := normName(wordString(w))
+				if !seen[s] {
+					seen[s] = true
+					fmt.Println("  ", s)
+				}
+			}
+		} else {
+			printGraph(m.G)
+		}
+	}
+}
